@@ -321,8 +321,46 @@ def shard_mixed(ctx, payload):
     ctx.label('interleaved-history-lookups', done)
 
 
+def own_metres(code):
+    """The distance a row code denotes, by the customary meaning of the spelling (1 mile = 1609.344 m); None when the code
+    names no distance (XC, walks and hurdles are other rows)."""
+    import re as _re
+    c = code.upper()
+    if c == 'MAR':
+        return 42195.0
+    if c == 'HM':
+        return 21097.5
+    if c == 'MILE':
+        return 1609.344
+    m = _re.match(r'^(\d+(?:\.\d+)?)(K|M|MT)?$', c)
+    if not m:
+        return None
+    q = float(m.group(1))
+    return q * {None: 1.0, 'K': 1000.0, 'M': 1609.344, 'MT': 1609.344}[m.group(2)]
+
+
+def examine_row(case):
+    """The table's own distance column agrees with the distance the row's code denotes (the brackets of every other clause
+    are taken from that column)."""
+    rows = running_rows(case['year'], case['g'])
+    out = []
+    for code, km, best in rows:
+        if code != case['code']:
+            continue
+        want = own_metres(code)
+        if want and abs(km * 1000.0 - want) > 0.002 * want:
+            out.append(V('factor-between-neighbours', ['table-distance-column', 'differs-from-the-code'], case, km, want / 1000.0))
+    return out
+
+
 def run(ctx):
     thorough = ctx.tier == 'thorough'
+    for year in (2015, 2023):
+        for g in 'mf':
+            for code, km, best in running_rows(year, g):
+                ctx.count()
+                ctx.label('table-rows')
+                ctx.violations(examine_row({'kind': 'row', 'year': year, 'g': g, 'code': code}))
     run_shards(ctx, 'checks.c15', 'shard_mixed', [12000 if thorough else 1500] * 16, disjoint=False)
     payloads = []
     nparts = 8 if thorough else 2
@@ -338,6 +376,8 @@ examine_point = examine
 
 
 def examine(case):   # noqa: F811  (replay entry point dispatches on the case shape)
+    if case.get('kind') == 'row':
+        return examine_row(case)
     if case.get('kind') == 'history':
         return examine_history(case)
     return examine_order(case) if case.get('kind') == 'order' else examine_point(case)
